@@ -12,11 +12,14 @@ package race
 import (
 	"context"
 	"fmt"
+	"io"
 	"os"
 	"regexp"
 	"sort"
 	"strings"
 	"sync"
+
+	"github.com/sirupsen/logrus"
 
 	"github.com/arr-ai/arrai/pkg/arraictx"
 	"github.com/arr-ai/arrai/pkg/importcache"
@@ -27,7 +30,10 @@ import (
 	"aaverif/tape"
 )
 
-func init() { run.Register("race", Run) }
+func init() {
+	run.Register("race", Run)
+	logrus.SetOutput(io.Discard) // deprecation warnings
+}
 
 func num(n int) rel.Value { return rel.NewNumber(float64(n)) }
 
@@ -112,6 +118,14 @@ var programs = []string{
 	"//rel.union({nums, {1000}})",
 	"//eval.value('1 + 1')",
 	"r rank (k: .x)",
+	// deprecated forms: each distinct source text is recorded once in a process-wide cache
+	"(a: 1) + (b: 2)",
+	"(a: 1, c: 3) + (b: t.a1)",
+	"{1} + {2}",
+	"nums + {1000}",
+	"'a' + 'b'",
+	"{(a: 1)}.a",
+	"(r where .x = 1).y",
 }
 
 var reHdr = regexp.MustCompile(`^(Write|Read|Previous write|Previous read|Atomic write|Previous atomic write|Atomic read|Previous atomic read) at 0x[0-9a-f]+ by `)
